@@ -186,6 +186,21 @@ def cases(rng, tier, stats):
                 out.append(mk_case("fault-special", r, st, depth, in_module, cls, None))
                 kinds[sname] = kinds.get(sname, 0) + 1
                 n += 1
+    # wrong built-in argument, systematically: every argument tuple of length 0..3 over one value of each kind for the
+    # pure built-ins; exactly the documented shapes are accepted, every other call is a runtime error on its own line
+    import itertools
+    from props.base import prog_case
+    pool = [G.s("১২"), G.num(1), G.lst(G.num(1), G.num(2)), G.b(True), G.rec((G.s("k"), G.num(1)))]
+    nt = 0
+    for fn in ("_স্ট্রিং", "_সংখ্যা", "_লিস্ট-পুশ", "_লিস্ট-পপ", "_লিস্ট-লেন", "_এরর"):
+        for ln in range(0, 4):
+            for args in itertools.product(pool, repeat=ln):
+                if tier != "thorough" and ln == 3 and (nt % 3) != 0:
+                    nt += 1
+                    continue
+                out.append(prog_case("argument-tuples", [("print", G.s("আগে")), ("print", G.call(fn, *args)), ("print", G.s("পরে"))], line=True))
+                nt += 1
+    stats["argument_tuples"] = nt
     stats["fault_cases"] = n
     stats["fault_kinds"] = kinds
     return out
